@@ -19,9 +19,15 @@
    * the OmegaConf layer: `to_cfg` (= `OmegaConf.structured(obj)` followed by
      `to_container(throw_on_missing=True)`: class of a nested object must be the
      declared class or a subclass, int -> float on float fields, tuples become
-     lists, `???` raises) and the structured `merge schema cfg`
-     (`OmegaConf.merge(schema, cfg)`: take cfg's value where present, the schema
-     default elsewhere, reject unknown keys and scalars where a node is declared).
+     lists, `???` raises; a scalar of ANOTHER type than the declared scalar type
+     is CONVERTED by the typed node or rejected — `coerce_scalar`; the elements of
+     List[T] / Tuple[T, T] are typed — `TListOf`; `to_cfg_gen true` is the strict
+     variant that never converts, its success is the predicate `coercion_free` of
+     the "changes no value" theorems), `top_value` (a top-level value of the
+     DictConfig given to verify_training_cfg against the declared field) and the
+     structured `merge schema cfg` (`OmegaConf.merge(schema, cfg)`: take cfg's
+     value where present, the schema default elsewhere, reject unknown keys and
+     scalars where a node is declared).
    * a finite reachability checker used for the augmentation-list theorems. *)
 From Coq Require Import List String Ascii ZArith QArith Bool Arith.
 From SV Require Import Base.Render.
@@ -50,7 +56,10 @@ Inductive ekind :=
 | ValueError | TypeError | KeyError | AttributeError
 | ValidationError            (* omegaconf.errors.ValidationError *)
 | MissingMandatory           (* omegaconf.errors.MissingMandatoryValue *)
-| ConfigKeyError.            (* omegaconf.errors.ConfigKeyError / ConfigAttributeError *)
+| ConfigKeyError             (* omegaconf.errors.ConfigKeyError / ConfigAttributeError *)
+| Unmodelled.                (* NOT an exception of the code: the code returns a value here that this
+                                model does not compute (str(float), int()/float() of unusual strings).
+                                The harness never accepts it as agreement with anything. *)
 
 Inductive res (A : Type) : Type := Ok (a : A) | Err (e : ekind).
 Arguments Ok {A} a.
@@ -349,7 +358,8 @@ Definition call_kw (params required : list string) (defaults : list (string * cf
 
 (* --------------------------------------------------------------- attrs layer *)
 
-Inductive ty := TAny | TBool | TInt | TFloat | TStr | TList | TDict | TCls (name : string).
+Inductive ty := TAny | TBool | TInt | TFloat | TStr | TList | TDict | TCls (name : string)
+| TListOf (elem : ty).                    (* List[T] / Tuple[T, ...]: OmegaConf types every element *)
 
 Record field_def := mkField {
   f_name : string;
@@ -474,20 +484,115 @@ Fixpoint has_missing (v : cfg) : bool :=
 
 Definition ty_any (t : ty) : bool := match t with TAny => true | _ => false end.
 
+(* --- OmegaConf's typed scalar nodes convert ("coerce") a value of another scalar type ---------
+   StringNode: str(value) for every non-container; IntegerNode: int(value) for str / int (bool and
+   float are rejected); FloatNode: float(value) for float / str / int (bool rejected); BooleanNode:
+   bool, int (!= 0), str (int(value) != 0, else yes/y/on/true | no/n/off/false, any case).  The
+   results this model cannot compute (the repr of a float, int()/float() of strings other than
+   [+-]digits) are `Err Unmodelled`, never a claim about the code. *)
+Definition z_to_string (z : Z) : string := rZ z "".
+
+Definition is_digit (a : ascii) : bool :=
+  let n := nat_of_ascii a in Nat.leb 48 n && Nat.leb n 57.
+Fixpoint digits_val (s : string) (acc : Z) : option Z :=
+  match s with
+  | EmptyString => Some acc
+  | String a r => if is_digit a then digits_val r (acc * 10 + Z.of_nat (nat_of_ascii a - 48)) else None
+  end.
+(* a printable ASCII character that int() never accepts in base 10 *)
+Definition never_in_int (a : ascii) : bool :=
+  let n := nat_of_ascii a in
+  Nat.leb 33 n && Nat.leb n 127 && negb (is_digit a) && negb (Nat.eqb n 43 || Nat.eqb n 45 || Nat.eqb n 95).
+Fixpoint str_exists (p : ascii -> bool) (s : string) : bool :=
+  match s with EmptyString => false | String a r => p a || str_exists p r end.
+
+Inductive parsed := PInt (z : Z) | PNot | PUnknown.
+(* Python's int(s): [+-]digits is parsed; "" and any string holding a printable ASCII character
+   other than digits, sign, underscore never parse; the rest (whitespace, underscores, non-ASCII
+   digits) is not modelled *)
+Definition py_int_of_str (s : string) : parsed :=
+  let body := match s with
+              | String a r => if Nat.eqb (nat_of_ascii a) 43 || Nat.eqb (nat_of_ascii a) 45 then r else s
+              | EmptyString => s
+              end in
+  let neg := match s with String a _ => Nat.eqb (nat_of_ascii a) 45 | _ => false end in
+  match body with
+  | EmptyString => PNot                       (* "", "+", "-" *)
+  | _ => match digits_val body 0%Z with
+         | Some z => PInt (if neg then (- z)%Z else z)
+         | None => if str_exists never_in_int s then PNot else PUnknown
+         end
+  end.
+
+Definition ascii_lower (a : ascii) : ascii :=
+  let n := nat_of_ascii a in if Nat.leb 65 n && Nat.leb n 90 then ascii_of_nat (n + 32) else a.
+Fixpoint str_lower (s : string) : string :=
+  match s with EmptyString => EmptyString | String a r => String (ascii_lower a) (str_lower r) end.
+Definition all_ascii (s : string) : bool := negb (str_exists (fun a => Nat.leb 128 (nat_of_ascii a)) s).
+
+Definition py_bool_of_str (s : string) : res cfg :=
+  match py_int_of_str s with
+  | PInt z => Ok (VBool (negb (Z.eqb z 0)))
+  | PUnknown => Err Unmodelled
+  | PNot =>
+      if negb (all_ascii s) then Err Unmodelled
+      else if mem_str (str_lower s) ["yes"; "y"; "on"; "true"] then Ok (VBool true)
+      else if mem_str (str_lower s) ["no"; "n"; "off"; "false"] then Ok (VBool false)
+      else Err ValidationError
+  end.
+
+Definition two53 : Z := 9007199254740992%Z.
+
+(* a scalar v of another type than the declared scalar type t: what the typed node stores.
+   `strict` = true: no conversion is performed (the value would change), ValidationError instead —
+   the success of the strict conversion is the predicate "coercion-free" of the theorems. *)
+Definition coerce_scalar (strict : bool) (t : ty) (v : cfg) : res cfg :=
+  if strict then Err ValidationError else
+  match t, v with
+  | TStr, VBool b => Ok (VStr (if b then "True" else "False"))
+  | TStr, VInt z => Ok (VStr (z_to_string z))
+  | TStr, VFloat _ => Err Unmodelled
+  | TStr, VNonFin NaN => Ok (VStr "nan")
+  | TStr, VNonFin PInf => Ok (VStr "inf")
+  | TStr, VNonFin NInf => Ok (VStr "-inf")
+  | TBool, VInt z => Ok (VBool (negb (Z.eqb z 0)))
+  | TBool, VStr s => py_bool_of_str s
+  | TInt, VStr s => match py_int_of_str s with
+                    | PInt z => Ok (VInt z) | PNot => Err ValidationError | PUnknown => Err Unmodelled
+                    end
+  | TFloat, VStr s => match py_int_of_str s with
+                      | PInt z => if Z.leb (Z.abs z) two53 then Ok (VFloat (inject_Z z)) else Err Unmodelled
+                      | _ => Err Unmodelled
+                      end
+  | _, _ => Err ValidationError
+  end.
+
 (* OmegaConf.structured on the value of a field declared with type t *)
-Fixpoint to_cfg (cs : list class_def) (t : ty) (opt : bool) (v : cfg) {struct v} : res cfg :=
+Fixpoint to_cfg_gen (strict : bool) (cs : list class_def) (t : ty) (opt : bool) (v : cfg) {struct v} : res cfg :=
   match v with
   | VNone => if opt || ty_any t then Ok VNone else Err ValidationError
   | VMissing => Ok VMissing
-  | VBool _ => match t with TBool | TAny => Ok v | _ => Err ValidationError end
+  | VBool _ => match t with TBool | TAny => Ok v | _ => coerce_scalar strict t v end
   | VInt z => match t with
               | TInt | TAny => Ok v
               | TFloat => Ok (VFloat (inject_Z z))
-              | _ => Err ValidationError
+              | _ => coerce_scalar strict t v
               end
-  | VFloat _ | VNonFin _ => match t with TFloat | TAny => Ok v | _ => Err ValidationError end
-  | VStr _ => match t with TStr | TAny => Ok v | _ => Err ValidationError end
-  | VList l | VTup l => match t with TList | TAny => Ok (VList (map plain l)) | _ => Err ValidationError end
+  | VFloat _ | VNonFin _ => match t with TFloat | TAny => Ok v | _ => coerce_scalar strict t v end
+  | VStr _ => match t with TStr | TAny => Ok v | _ => coerce_scalar strict t v end
+  | VList l | VTup l =>
+      match t with
+      | TList | TAny => Ok (VList (map plain l))
+      | TListOf e =>
+          bind ((fix go (l : list cfg) : res (list cfg) :=
+                   match l with
+                   | [] => Ok []
+                   | x :: r => bind (to_cfg_gen strict cs e false x) (fun x' =>
+                               bind (go r) (fun r' => Ok (x' :: r')))
+                   end) l)
+               (fun l' => Ok (VList l'))
+      | _ => Err ValidationError
+      end
   | VDict kv => match t with
                 | TDict | TAny => Ok (VDict (map (fun e => (fst e, plain (snd e))) kv))
                 | _ => Err ValidationError
@@ -506,13 +611,50 @@ Fixpoint to_cfg (cs : list class_def) (t : ty) (opt : bool) (v : cfg) {struct v}
                          match find_field c k with
                          | None => Err ValidationError
                          | Some f =>
-                             bind (to_cfg cs (f_ty f) (f_opt f) x) (fun x' =>
+                             bind (to_cfg_gen strict cs (f_ty f) (f_opt f) x) (fun x' =>
                              bind (go r) (fun r' => Ok ((k, x') :: r')))
                          end
                      end) kv)
                  (fun kv' => Ok (VDict kv'))
         end
   end.
+
+(* what the code does *)
+Definition to_cfg := to_cfg_gen false.
+(* the value sits at fields of its own type everywhere (int at float, tuple at list, object at its
+   class allowed): the structured conversion then performs no scalar conversion *)
+Definition coercion_free (cs : list class_def) (t : ty) (opt : bool) (v : cfg) : bool :=
+  is_ok (to_cfg_gen true cs t opt v).
+
+(* a top-level value of the DictConfig handed to verify_training_cfg, against the declared field
+   (`OmegaConf.structured(TrainingJobConfig(<the keys of cfg as keywords>))`): a dict / list NODE is taken as it is whatever
+   the declared type (its own metadata replaces the declared one); a scalar goes through the typed
+   node of the field — converted at the str fields, rejected at a section (`None`, `3`, `'abc'`:
+   ValidationError), `???` stays `???` *)
+Definition top_value (cs : list class_def) (t : ty) (opt : bool) (v : cfg) : res cfg :=
+  match v with
+  | VDict _ | VList _ => Ok v
+  | VTup _ | VObj _ _ => Err Unmodelled          (* not values of a DictConfig *)
+  | VMissing => Ok VMissing
+  | _ => match t with
+         | TCls _ => if opt && is_none v then Ok VNone else Err ValidationError
+         | _ => to_cfg cs t opt v
+         end
+  end.
+
+(* every top-level value against the field of class c it is the keyword of (unknown keyword: the
+   constructor's TypeError) *)
+Definition top_values (cs : list class_def) (c : class_def) :=
+  fix go (kv : list (string * cfg)) : res (list (string * cfg)) :=
+    match kv with
+    | [] => Ok []
+    | (k, v) :: r =>
+        match find_field c k with
+        | None => Err TypeError
+        | Some f => bind (top_value cs (f_ty f) (f_opt f) v) (fun v' =>
+                    bind (go r) (fun r' => Ok ((k, v') :: r')))
+        end
+    end.
 
 (* TrainingJobConfig.to_sleap_nn_cfg: structured + to_container(throw_on_missing) *)
 Definition to_sleap_nn_cfg (cs : list class_def) (top : string) (obj : cfg) : res cfg :=
@@ -677,6 +819,7 @@ Definition rkind (e : ekind) : rdr :=
            | ValueError => "ValueError" | TypeError => "TypeError" | KeyError => "KeyError"
            | AttributeError => "AttributeError" | ValidationError => "ValidationError"
            | MissingMandatory => "MissingMandatoryValue" | ConfigKeyError => "ConfigKeyError"
+           | Unmodelled => "Unmodelled"
            end).
 
 (* JSON: null | true | 17 | {"f":[n,d]} | "s" | [..] | {"t":[..]} | {"d":[[k,v]..]} |
